@@ -133,6 +133,41 @@ let read_az () : stats =
   { fit_mean = List.map (fun (m, _, _) -> m) rows; fit_sd = List.map (fun (_, s, _) -> s) rows;
     age_mean = List.map (fun (_, _, a) -> a) rows; fit_var = var }
 
+(* selection draws; for ALPS also the bounds random::sup was called with *)
+let read_sel () : sel_draws * int list =
+  match next () with
+  | "ST" ->
+      let tl = next_nat () in let ti = next_nat () in
+      let n = next_int () in
+      (SelTournament ((tl, ti), read_n n next_z), [])
+  | "SR" -> (SelRandom (read_coords ()), [])
+  | "SA" ->
+      let layer = next_nat () in
+      let rd () = let b = next_int () = 1 in let i = next_nat () in (b, i) in
+      let pk0 = rd () in let pk1 = rd () in
+      let n = next_int () in
+      let pks = read_n n rd in
+      expect "SUP";
+      let nb = next_int () in
+      let bs = read_n nb next_int in
+      (SelAlps (layer, pk0, pk1, pks), bs)
+  | t -> raise (Parse ("sel " ^ t))
+
+(* every index of alps::pickup must have been drawn below the size of the
+   layer the individual is taken from *)
+let check_alps_bounds (k : int) (p : fitv population) (sd : sel_draws) (bs : int list) =
+  match sd with
+  | SelAlps (layer, pk0, pk1, pks) ->
+      let l = int_of_nat layer in
+      let size j = match List.nth_opt p j with Some ly -> List.length ly.members | None -> -1 in
+      let picks = pk0 :: pk1 :: pks in
+      if List.length picks <> List.length bs then add "D" k "alps_pickup_draw_count"
+      else
+        List.iter2 (fun (same, _) b ->
+          let l' = if l = 0 || same then l else l - 1 in
+          if b <> size l' then add "D" k "alps_pickup_draw_bound") picks bs
+  | _ -> ()
+
 let prob3_of = function "0" -> P0 | "1" -> P1 | _ -> Pmid
 
 let process (line : string) : string =
@@ -141,7 +176,7 @@ let process (line : string) : string =
   findings := [];
   let nstep = ref 0 and ngen = ref 0 and nshake = ref 0 and ncb = ref 0 and nrepl = ref 0 and nbest = ref 0
   and maxlayers = ref 1 and nrestart = ref 0 and nadd = ref 0 and nremoved = ref 0 and nskip = ref 0
-  and nstopchk = ref 0 and nstopped = ref 0 in
+  and nstopchk = ref 0 and nstopped = ref 0 and nsel = ref 0 in
   (try
     expect "ENVM";
     let strat = match next () with "std" -> Std | "de" -> De | "alps" -> Alps | "dealps" -> DeAlps
@@ -177,7 +212,7 @@ let process (line : string) : string =
             | None -> add "R" 0 "init")
        | _ -> add "R" 0 "init_layers");
       model := Some s; impl := Some s
-    end else if first <> "SEARCH" then raise (Parse ("first token " ^ first));
+    end else if first <> "SEARCH" && first <> "INITSEL" then raise (Parse ("first token " ^ first));
     let continue = ref true in
     while !continue do
       incr k;
@@ -219,19 +254,7 @@ let process (line : string) : string =
           model := Some s; impl := Some s
       | "STEP" ->
           incr nstep;
-          let sd = match next () with
-            | "ST" ->
-                let tl = next_nat () in let ti = next_nat () in
-                let n = next_int () in
-                SelTournament ((tl, ti), read_n n next_z)
-            | "SR" -> SelRandom (read_coords ())
-            | "SA" ->
-                let layer = next_nat () in
-                let rd () = let b = next_int () = 1 in let i = next_nat () in (b, i) in
-                let pk0 = rd () in let pk1 = rd () in
-                let n = next_int () in
-                SelAlps (layer, pk0, pk1, read_n n rd)
-            | t -> raise (Parse ("sel " ^ t)) in
+          let (sd, sup_bounds) = read_sel () in
           let rd = match next () with
             | "RB" -> RecBase (match next () with "C" -> Cross | "1" -> Copy1 | _ -> Copy2)
             | "RD" -> let a = next_z () in let b = next_z () in RecDe (a, b)
@@ -253,6 +276,7 @@ let process (line : string) : string =
                if not (best_monotone_b flt prev s) then add "X" !k "best_monotone";
                if not (pop_eq prev.pop p) then incr nrepl;
                if prev.sm.best_fit.bits <> sm.best_fit.bits then incr nbest;
+               check_alps_bounds !k prev.pop sd sup_bounds;
                if not (parents_exist_b prev.pop par) then add "X" !k "members_exist";
                (match sd with
                 | SelTournament (tgt, _) ->
@@ -277,6 +301,23 @@ let process (line : string) : string =
                     if not (sum_eq s'.sm sm) then add "D" !k "step_summary")
            | None -> ());
           model := Some s; impl := Some s
+      | "SEL" ->
+          incr nsel;
+          let (sd, sup_bounds) = read_sel () in
+          expect "PAR";
+          let par = read_coords () in
+          (match !impl with
+           | Some st ->
+               check_alps_bounds !k st.pop sd sup_bounds;
+               if not (parents_exist_b st.pop par) then add "X" !k "members_exist";
+               (match sd with
+                | SelAlps (layer, _, _, _) ->
+                    if not (alps_parents_b st.pop layer par) then add "X" !k "alps_parents_layer_or_below"
+                | _ -> ());
+               (match select flt e st.pop sd with
+                | None -> add "R" !k "select"
+                | Some mp -> if mp <> par then add "D" !k "parents")
+           | None -> ())
       | "STOP" ->
           decr k;
           let st = read_az () in
@@ -328,8 +369,8 @@ let process (line : string) : string =
   | Parse m -> add "R" (-1) ("parse_" ^ String.concat "_" (split_ws m))
   | Failure m -> add "R" (-1) ("failure_" ^ String.concat "_" (split_ws m))
   | Not_found -> add "R" (-1) "not_found");
-  let counters = Printf.sprintf "steps=%d gens=%d shakes=%d cbs=%d replaced=%d best_updates=%d maxlayers=%d added=%d removed=%d stop_checks=%d stopped=%d"
-      !nstep !ngen !nshake !ncb !nrepl !nbest !maxlayers !nadd !nremoved !nstopchk !nstopped in
+  let counters = Printf.sprintf "steps=%d gens=%d shakes=%d cbs=%d replaced=%d best_updates=%d maxlayers=%d added=%d removed=%d stop_checks=%d stopped=%d selections=%d"
+      !nstep !ngen !nshake !ncb !nrepl !nbest !maxlayers !nadd !nremoved !nstopchk !nstopped !nsel in
   match List.rev !findings with
   | [] -> "OK " ^ counters
   | fs ->
